@@ -692,17 +692,17 @@ impl<T> TooDee<T> {
             
             let mut p = self.data.as_mut_ptr().add(start);
             // shift everything to make space for the new row
-            let suffix = p.add(self.num_cols);
-            ptr::copy(p, suffix, len - start);
+            ptr::copy(p, p.add(self.num_cols), len - start);
             
-            // Only iterates a maximum of `self.num_cols` times.
-            while p < suffix {
+            // Iterates exactly `self.num_cols` times. Counting (rather than comparing
+            // pointers) also works for zero-sized types, where `p` never moves.
+            for _ in 0..self.num_cols {
                 if let Some(e) = iter.next() {
                     ptr::write(p, e);
                     p = p.add(1);
                 } else {
                     // panic if the iterator length is less than expected
-                    assert_eq!(p, suffix, "unexpected iterator length");
+                    panic!("unexpected iterator length");
                 }
             }
             
